@@ -236,7 +236,7 @@ macro_rules! c09_cfg {
                             let mut copy = $copy(&c);
                             for &(mj, t) in stack.iter().rev() {
                                 let d = copy.decode_symbol(&models[mj]).unwrap_infallible();
-                                vcheck!(d == t, "C09/failed_write_corrupted_coder", "after get_compressed() on a bounded sink ({}), decoded {} instead of {}", if failed { "failed: sink full" } else { "succeeded" }, d, t);
+                                vcheck!(d == t, if ctx.param == 8 { "C08/view_on_bounded_sink_changed_coder" } else { "C09/failed_write_corrupted_coder" }, "after get_compressed() on a bounded sink ({}), decoded {} instead of {}", if failed { "failed: sink full" } else { "succeeded" }, d, t);
                             }
                         }
                         match c.encode_symbol(s, &models[mi]) {
@@ -319,6 +319,9 @@ c09_cfg!(c09_u16_16, "p16/u16/u32", z_u16_16, u16, u32);
 c09_cfg!(c09_u16_12_w32, "p12/u32/u64", z_u16_12, u32, u64);
 c09_cfg!(c09_u32_24, "p24/u32/u64", z_u32_24, u32, u64);
 c09_cfg!(c09_u32_32, "p32/u32/u64", z_u32_32, u32, u64);
+// states wider than two words (4 and 4 words): more than one word of the state can be in flight when a sink fills up
+c09_cfg!(c09_u8_8_s32, "p8/u8/u32", z_u8_8, u8, u32);
+c09_cfg!(c09_u16_12_s64, "p12/u16/u64", z_u16_12, u16, u64);
 
 /// Huffman codebook with the bit-level coders
 fn c09_huffman(src: &mut Src, ctx: &mut Ctx) -> CaseResult {
@@ -383,8 +386,25 @@ fn c09_huffman(src: &mut Src, ctx: &mut Ctx) -> CaseResult {
     Ok(())
 }
 
+/// With `param == 8` the same histories serve C08 (a temporary view, obtained or refused, leaves the coder
+/// untouched): only the assertion about views is judged, everything else is another property's business.
 pub fn c09_impossible(src: &mut Src, ctx: &mut Ctx) -> CaseResult {
-    match src.below(8) {
+    let r = c09_dispatch(src, ctx);
+    if ctx.param == 8 {
+        if let Err(f) = &r {
+            if !f.sig.starts_with("C08/") {
+                ctx.discard("foreign_property_violated");
+                return Ok(());
+            }
+        }
+    }
+    r
+}
+
+fn c09_dispatch(src: &mut Src, ctx: &mut Ctx) -> CaseResult {
+    match src.below(10) {
+        8 => c09_u8_8_s32(src, ctx),
+        9 => c09_u16_12_s64(src, ctx),
         0 => c09_u8_8_w16(src, ctx),
         1 => c09_u8_8_w8(src, ctx),
         2 => c09_u16_12(src, ctx),
